@@ -157,7 +157,7 @@ theorem objLink_of_compile {m : Model (Ext K)} {t : K} (ht : 0 ≤ t) {maxSteps 
     (h : Compile.linearize m (.fin t) maxSteps = .ok lm)
     (hm : LogicModel m m.domain) (hsh : AssertShape m) (hok : DeclOK m.domain)
     (ht1 : t < 1 ∨ NoIntVars m.domain) : ObjLink m lm := by
-  obtain ⟨an, han, hlin⟩ := (compile_ok_iff m _ maxSteps lm).mp h
+  obtain ⟨_, an, han, hlin⟩ := (compile_ok_iff m _ maxSteps lm).mp h
   obtain ⟨hdom, hbox⟩ := pipeline_hyps_logic ht maxSteps hm hsh hok han ht1
   exact objLink_of_logic (logicModel_applyToDomain an hdom.tight hm) hdom hbox hlin
 
